@@ -259,6 +259,11 @@ class FSA:
                 continue
 
             if elist:
+                if ignore_redundant:
+                    # label is a list here, so the membership test
+                    # above never fires; filter label by label instead
+                    label = [l for l in label
+                             if l not in self._out_dict[tail][head]]
                 self._out_dict[tail][head] += label
                 self._in_dict[head][tail] += label
                 for l in label:
